@@ -785,4 +785,5 @@ func TestVerifC17Dist(t *testing.T) {
 	c17CompatCases(out, r.Fork(), verifkit.N(400, 10000))
 	c17DistCases(out, r.Fork(), verifkit.N(250, 5000))
 	c17ConcurrentDist(out, r.Fork(), verifkit.N(20, 300))
+	c17LockProbes(out)
 }
